@@ -61,6 +61,9 @@ ELSDefectVecs ==
 LS2Vecs ==
   [k \in 1..Len(MapSets) |-> SB("NewLeaseSet2", 7, [ct |-> 4, pairs |-> MapSets[k], off |-> FALSE, tst |-> 7, flags |-> 0, nkeys |-> 1, nleases |-> (k % 3) + 1, published |-> T4, expires |-> 600, offexpires |-> T4], 64, << 3 >>, 700 + k)]
   \o Cross2(<< 7, 11 >>, << 7, 11 >>, LAMBDA st, tst : SB("NewLeaseSet2", st, [ct |-> 4, pairs |-> MapSets[3], off |-> TRUE, tst |-> tst, flags |-> 1, nkeys |-> 2, nleases |-> 2, published |-> T4, expires |-> 600, offexpires |-> << 101, 36, 250, 0 >>], 64, << 3 >>, 800 + st + tst))
+  \* "any encryption keys": legacy 256-byte key entries whose bytes are 0, 1, all ones, random
+  \o SeqMap(LAMBDA k : SB("NewLeaseSet2", 7, [ct |-> 4, pairs |-> MapSets[3], off |-> FALSE, tst |-> 7, flags |-> 0, nkeys |-> 1, nleases |-> 1, published |-> T4, expires |-> 600,
+                                            offexpires |-> T4, elgkeys |-> k], 64, << 3 >>, 940), << "zeros", "ones", "one", "random" >>)
   \* counts at their limits (16 keys, 16 leases) and one below
   \o Cross2(<< 15, 16 >>, << 0, 15, 16 >>, LAMBDA nk, nl : SB("NewLeaseSet2", 7, [ct |-> 4, pairs |-> MapSets[3], off |-> FALSE, tst |-> 7, flags |-> 0, nkeys |-> nk, nleases |-> nl,
                                                                   published |-> T4, expires |-> 600, offexpires |-> T4], 64, << 3 >>, 950 + nk + nl))
